@@ -124,7 +124,7 @@ func run0601(in Sx) (out Sx) {
 
 // ---------------------------------------------------------------- C07 runner
 
-func flattenView(roots []*MNode) []refEntry {
+func flattenViewAcc(roots []*MNode) []refEntry {
 	var out []refEntry
 	var rec func(dir string, n *MNode)
 	rec = func(dir string, n *MNode) {
@@ -192,7 +192,7 @@ func run0701(in Sx) (out Sx) {
 	if err := Materialize(prior, dest); err != nil {
 		return L(L(), N(4), L(N(0), L()), L(N(0), L(), S(err.Error())), N(0))
 	}
-	entries := flattenView(view)
+	entries := flattenViewAcc(view)
 
 	ctx, cancel := context.WithCancel(context.Background())
 	defer cancel()
@@ -631,7 +631,7 @@ func genC07(g *Gen) {
 			differ = 1 // DiffNone
 			cls += "+diffnone"
 		}
-		entries := flattenView(view)
+		entries := flattenViewAcc(view)
 		bytesTotal, nreg := 0, 0
 		for _, e := range entries {
 			if isReg(e.Stat) && e.Stat.Linkname == "" {
